@@ -1122,7 +1122,8 @@ class ConstructedPayloadDecoderBase(AbstractConstructedPayloadDecoder):
                                         if component is eoo.endOfOctets:
                                             break
 
-                                    containerValue[pos] = component
+                                    if component is not eoo.endOfOctets:
+                                        containerValue[pos] = component
 
                             else:
                                 stream = asSeekableStream(asn1Object.getComponentByPosition(idx).asOctets())
